@@ -1,4 +1,6 @@
-"""C13: the four index expressions of PolarMeasurements.integrate (abtem/measurements.py)."""
+"""C13: `_limit_to_bin_index` (translated whole) and the four index expressions of
+PolarMeasurements.integrate (abtem/measurements.py)."""
+_F = "abtem/measurements.py"
 _PM = {
     "radial_limits[0]": "lim0",
     "radial_limits[1]": "lim1",
@@ -13,11 +15,14 @@ _P = ["lim0", "lim1", "az0", "az1", "radial_offset", "radial_sampling", "azimuth
 
 
 def _site(name, var):
-    return dict(gen="PolarIntegrate", name=name, file="abtem/measurements.py", func="PolarMeasurements.integrate",
-                select=("assign", var, 0), params_map=_PM, params=_P, ret="Int", modes=["rat"])
+    return dict(gen="PolarIntegrate", name=name, file=_F, func="PolarMeasurements.integrate",
+                select=("assign", var, 0), params_map=_PM, params=_P, ret="Int", modes=["rat"], ext=True,
+                calls={"_limit_to_bin_index": "limitToBinIndex"})
 
 
 SITES = [
+    dict(gen="PolarIntegrate", name="limitToBinIndex", file=_F, func="_limit_to_bin_index", whole=True,
+         params_map={}, params=["limit", "offset", "sampling"], ret="Int", modes=["rat"]),
     _site("innerIndex", "inner_index"),
     _site("outerIndex", "outer_index"),
     _site("leftIndex", "left_index"),
